@@ -16,6 +16,8 @@ Decided (structural, every command / every rule outcome):
         (self.perspective = Some/insert) must not return Err while that perspective can be
         empty, because flush/add_merge/get_perspective write self.perspective out
         unconditionally and Storage::write rejects an empty perspective.
+ R8 K2  a command refused by the store after its rule ran (perspective.add_command's error) is undone
+        like a policy rejection: revert(checkpoint) and sink.rollback() on every path to the return.
 Not decided: interaction of rejections with later merges over all positions (value-level)."""
 from rules.core import pat
 from rules.core.facts import Operand
@@ -150,6 +152,7 @@ def run(F, rep, tier):
 
     # R7 install/fill pairing
     check_install_fill(F, rep)
+    refused_after_rule(F, rep)
 
 
 def check_install_fill(F, rep):
@@ -245,3 +248,36 @@ def check_install_fill(F, rep):
 
 def short(p):
     return p.split("::")[-2] + "::" + p.split("::")[-1]
+
+
+def refused_after_rule(F, rep):
+    """R8: between the policy call and sink.commit() a command can still be refused by the store
+    (perspective.add_command checks the parent address, max_cut included, which the signature does not cover).
+    By then its rule has run: every such failing exit must revert the perspective to the checkpoint and roll
+    the sink back, exactly like a policy rejection - otherwise its fact writes are carried into the next
+    accepted command."""
+    f = F.fn(T + "add_single")
+    crs = pat.trait_calls(f, "policy::Policy", "call_rule")
+    acs = pat.trait_calls(f, "storage::Perspective", "add_command")
+    cms = pat.trait_calls(f, "policy::Sink", "commit")
+    if len(crs) != 1 or not acs or not cms:
+        rep.anchor_missing("add_single: call_rule / add_command / sink.commit")
+        return
+    rev = pat.trait_calls(f, "storage::Revertable", "revert")
+    rbs = pat.trait_calls(f, "policy::Sink", "rollback")
+    for ac in acs:
+        oe = f.outcome_edges(ac)
+        e = oe.get("Err") or oe.get("Break")
+        if e is None:
+            # the result is not inspected at all (e.g. ignored): then it cannot refuse
+            continue
+        # cut revert's own failure exit
+        cut = {pat.err_edge(f, x) for x in rev if pat.err_edge(f, x)}
+        r1 = f.reachable(e[1], cut_edges=cut, cut_blocks={x.bb for x in rev})
+        r2 = f.reachable(e[1], cut_edges=cut, cut_blocks={x.bb for x in rbs})
+        ok = bool(rev) and bool(rbs) and not (r1 & set(f.returns())) and not (r2 & set(f.returns()))
+        rep.check(ok, "Transaction::add_single|refused-by-store-is-undone", "K2 err-edge action",
+                  "when perspective.add_command refuses the command after its rule ran, every path to the return passes perspective.revert(checkpoint) and sink.rollback()",
+                  "Transaction::add_single returns the error of perspective.add_command (e.g. PerspectiveHeadMismatch for a parent address with the right id and a wrong max_cut) without "
+                  "reverting the perspective or rolling the sink back: the refused command's fact writes stay in the in-flight perspective and are committed with the next accepted command",
+                  ac.site())
